@@ -36,6 +36,7 @@ open TypifyModel.C01
 #print axioms TypifyModel.Dispatch.resolve_total
 #print axioms TypifyModel.Dispatch.source_arms_as_read
 #print axioms TypifyModel.Dispatch.typed_arms_agree
+#print axioms TypifyModel.Dispatch.source_first_match
 #print axioms TypifyModel.Dispatch.typed_arms_callees
 #print axioms TypifyModel.Dispatch.first_arm_nullable
 #print axioms TypifyModel.Dispatch.rewrite_arms_callees
